@@ -47,6 +47,7 @@ CHECKS["C09"] = {
              "[old base, old top]; values of the sequence space outside the window change nothing; ACK(base) frees a slot; window slots populated); containsSequence vs cyclic membership for all triples. "
              "(2) rapid random (s,base,size,op,value). (3) virtual-time scenarios with a wire monitor: first transmissions minus everything the ACK/NACKs already handed to the sender could acknowledge must be <= N, "
              "and both ends must report n=N, s=N+1. (4) blocking: N+k back-to-back Sends with ACK latency D: the first N return with zero virtual elapsed time, the next not before one RTT and by one RTT (+1ms) per window. "
+             "(5) TestC09SendFail: as (4), with the transport's send function failing once, for the first transmission of the window-filling packet, a neighbour or any packet: however the connection reacts (it may close), at most N Sends are accepted before the first acknowledgement can have arrived. The dynamic scenarios (3) also draw slow receiving applications and, in a fifth of the cases, one failing send. "
              "Non-trivial: enumerated triples whose value is in the window, equals top, or is >= s; dynamic cases in which the window filled; every blocking case."),
     "exhaustive_scope": "all (base,size,value) triples for s in 2..10 and the s=255 grid, both ACK and NACK; all containsSequence triples for s in 2..10",
     "assumptions": ["queue states are constructed by the same calls the connection makes", "the wire monitor reads ACK/NACK as generously cumulative as any correct sender could"],
@@ -55,6 +56,7 @@ CHECKS["C09"] = {
         {"pkg": "gbnprop", "run": "TestC09RapidQueue", "checks": (20000, 400000), "shards": (1, 4)},
         {"pkg": "gbnprop", "run": "TestC09Dynamic", "checks": (2500, 30000), "shards": (1, 8), "timeout": (900, 5400), "gomaxprocs": [16, 1, 2, 4]},
         {"pkg": "gbnprop", "run": "TestC09Blocking", "checks": (1500, 20000), "shards": (1, 4), "timeout": (900, 5400)},
+        {"pkg": "gbnprop", "run": "TestC09SendFail", "checks": (1500, 20000), "shards": (1, 4), "timeout": (900, 5400)},
     ],
 }
 
